@@ -480,6 +480,16 @@ impl<'a> Searcher<'a> {
                                         b.cmp(&a)
                                     };
                                 }
+                                // numbers with a fraction (AVG): as numbers too, not as texts
+                                if let (Ok(a), Ok(b)) = (a.parse::<f64>(), b.parse::<f64>()) {
+                                    if let Some(ordering) = a.partial_cmp(&b) {
+                                        return if directions[idx] {
+                                            ordering
+                                        } else {
+                                            ordering.reverse()
+                                        };
+                                    }
+                                }
                                 if directions[idx] {
                                     a.cmp(b)
                                 } else {
